@@ -20,7 +20,10 @@ class UF(PyObj):
             acc_ref, item = args[1].fields
             acc = acc_ref.get()
             item = deref(item)
-            acc_ref.set(mk_int('u64', UF.F(acc.z(), val64(item))))
+            if ex.env.get('native') or ex.env.get('concrete_fold'):
+                acc_ref.set(mk_int('u64', acc.z() * 31 + val64(item) + 1))
+            else:
+                acc_ref.set(mk_int('u64', UF.F(acc.z(), val64(item))))
             return unit()
         if trait == 'Clone':
             return self
@@ -39,7 +42,7 @@ def val64(v):
 def fold_seq(items, init=0, ex=None):
     acc = z3.BitVecVal(init, 64)
     for it in items:
-        if ex is not None and ex.env.get('native'):
+        if ex is not None and (ex.env.get('native') or ex.env.get('concrete_fold')):
             acc = acc * 31 + val64(it) + 1        # the function the native driver uses (replay/SPEC.md)
         else:
             acc = UF.F(acc, val64(it))
@@ -223,6 +226,7 @@ def drive_manager(ex, proc, holder, script):
     for i, el in enumerate(script):
         ret = ex.call_function(proc, [Ref(holder, 0), deep_copy(el)])
         out.append((i, results_of(ret)))
+    ex.env['last_output'] = [r for _, rs in out for r in rs + [None]]
     return out
 
 
